@@ -625,9 +625,8 @@ class UBXMessage:
             # all MGA messages except MGA-DBD need to be identified by the
             # 'type' attribute - the first byte of the payload
             if self._ubxClass == b"\x13" and self._ubxID != b"\x80":
-                umsg_name = UBX_MSGIDS[
-                    self._ubxClass + self._ubxID + self._payload[0:1]
-                ]
+                payload = b"" if self._payload is None else self._payload
+                umsg_name = UBX_MSGIDS[self._ubxClass + self._ubxID + payload[0:1]]
             else:
                 umsg_name = UBX_MSGIDS[self._ubxClass + self._ubxID]
         except KeyError:
